@@ -103,6 +103,10 @@ class C05(L1Prop):
         ("sql-http-av-update", "sqlfault clients UPDATE 2", "http POST av hyph=latest:1 hyph=1 history b:6,3"),
         ("sql-lib-as-update", "sqlfault clients UPDATE 2", "as 1 latest:1 b:8,3"),
         ("sql-http-av-new", "sqlfault versions INSERT 8", "http POST av hyph=nil hyph=9 history b:5,5"),
+        # a transient failure after which SQLite has rolled the transaction back by itself (the class of disk
+        # full / I/O error / out of memory): whatever the code does next runs outside any transaction
+        ("sqlrb-lib-av", "sqlfaultrb 2", "av 1 latest:1 b:6,6"),
+        ("sqlrb-http-av", "sqlfaultrb 2", "http POST av hyph=latest:1 hyph=1 history b:6,7"),
     ]
     # the write lock is held by another connection while the request asks for its transaction (and is
     # let go as soon as that call returns); one lock-wait budget (5 s) per case
